@@ -327,7 +327,7 @@ fn explore_shard(profile: &Profile, built: &Built, c0: usize, cap_execs: u64) ->
                 }
             }
         }
-        if st.executions >= cap_execs {
+        if st.executions >= cap_execs || (st.executions % 64 == 0 && par::over_budget()) {
             st.capped = true;
             break;
         }
